@@ -1,4 +1,5 @@
 import BoolFn.Render
+import BoolFn.Proofs.RenderText
 import BoolFn.Proofs.Codec
 /-! # C18 — Formatted table rendering shows exactly the function's relation
 
@@ -8,9 +9,13 @@ domain point in domain order whose cells are the point's values and the function
 requested formatting. Reading the cells back from the rendering reproduces the function's relation,
 and the plain display form is the frameless style with word formatting.
 
-What is proved is the *cell grid* the code hands to the `tabled` builder (`cells`); the layout engine
-of `tabled` is not modelled: every real rendering is read back by position (`readCells`) and compared
-with `cells` in the correspondence check. -/
+Three layers: the *cell grid* the code hands to the `tabled` builder (`cells`: header + relation rows
+in domain order, `cells_eq_relation`, `cells_rows`); a model of the text `tabled` lays out for the four
+styles (`BoolFn/RenderText.lean`, cells one column wide per character — a third-party layout engine,
+so this model is validated byte for byte by the correspondence check); and **reading the cells back
+from the rendered text gives the grid** (`rendering_reads_back`, all four styles), for input names
+that are non-empty words without white space, `|`, `│` or line breaks. The correspondence check also
+reads every *real* rendering back by position (`readCells`) and compares it with `cells`. -/
 namespace BoolFn.C18
 open BoolFn
 
@@ -40,7 +45,31 @@ theorem cells_rows (t : Table String) (h : t.outputs.length = 2 ^ t.inputs.lengt
 theorem format_injective (f : Fmt) : formatBool f true ≠ formatBool f false := by
   cases f <;> decide
 
+/-- **reading the cells back from the rendering reproduces the grid** (hence, with
+    `cells_eq_relation`, the function's relation), in every style and formatting -/
+theorem rendering_reads_back (t : Table String) (h : t.outputs.length = 2 ^ t.inputs.length)
+    (hn : ∀ n ∈ t.inputs, TidyCell n) (st : Style) (fi fo : Fmt) :
+    readCells st (render st (cells t fi fo)) = cells t fi fo := by
+  have hrect := cells_rect t h fi fo
+  have htidy := cells_tidy t hn fi fo
+  have hne : cells t fi fo ≠ [] := by simp [cells]
+  cases st with
+  | ascii => exact readCells_render_ascii _ hrect (fun r hr s hs => (htidy r hr s hs).framed '|' (Or.inl rfl))
+  | modern => exact readCells_render_modern _ hne hrect (fun r hr s hs => (htidy r hr s hs).framed '│' (Or.inr rfl))
+  | markdown => exact readCells_render_markdown _ hne hrect (fun r hr s hs => (htidy r hr s hs).framed '|' (Or.inl rfl))
+  | empty => exact readCells_render_empty _ hne hrect (fun r hr s hs => (htidy r hr s hs).word)
+
+/-- the plain display form is the frameless style with word formatting: `Display` calls
+    `to_string_formatted(Empty, Word, Word)` (compared on the implementation: `display` cases) -/
+theorem display_reads_back (t : Table String) (h : t.outputs.length = 2 ^ t.inputs.length)
+    (hn : ∀ n ∈ t.inputs, TidyCell n) :
+    readCells .empty (render .empty (cells t .word .word)) = cells t .word .word :=
+  rendering_reads_back t h hn .empty .word .word
+
 /-- non-vacuity -/
+example : (render .markdown (cells ⟨["a"], [true, false]⟩ .number .number)).toList =
+    "| a | result |\n|---|--------|\n| 0 | 1      |\n| 1 | 0      |".toList := by decide
+example : ∀ n ∈ ["a", "x_10", "é"], TidyCell n := by decide
 example : cells ⟨["a", "b"], [false, true, true, false]⟩ .number .word =
     [["a", "b", "result"], ["0", "0", "false"], ["0", "1", "true"], ["1", "0", "true"], ["1", "1", "false"]] := by decide
 example : readCells .markdown "| a | result |\n|---|--------|\n| 0 | 1      |\n| 1 | 0      |" =
